@@ -131,7 +131,3 @@ package absnfs
 //@ ensures [nil] tc == nil ==> result == nil
 //@ ensures [copy] tc != nil ==> result != nil && fresh(result) && result.Enabled == tc.Enabled && result.CertFile == tc.CertFile && result.KeyFile == tc.KeyFile && result.CAFile == tc.CAFile && result.ClientAuth == tc.ClientAuth && result.MinVersion == tc.MinVersion && result.MaxVersion == tc.MaxVersion
 //@ ensures [unlocked] tc != nil ==> held(tc.mu) == 0
-
-//@ func NewAttrCache
-//@ prop C24 C21
-//@ ensures [nonnil] result != nil && fresh(result)
